@@ -35,6 +35,26 @@ Theorem C10_alloc_linear : forall (bytes : list N) (maxArr : Z),
 Proof. exact decode_alloc_linear. Qed.
 Print Assumptions C10_alloc_linear.
 
+(** the same two statements for a decode that starts at any absolute offset of a larger file (server/create.go ggufLayers
+    decodes model after model from one blob) *)
+Theorem C10_decode_from_total : forall (base : Z) (bytes : list N) (maxArr : Z),
+  match decode_from base bytes maxArr with
+  | DOk _ _ => True
+  | DErr e _ => e <> EFuel
+  | DPanic _ _ => False
+  end.
+Proof. exact decode_from_total. Qed.
+Print Assumptions C10_decode_from_total.
+
+(** progress: a successful decode ends at least 16 bytes after the position it started from - no tensor size can move
+    the reader backwards (fixes/C10-tensor-size-rewind.patch) - so the loop of ggufLayers, which decodes again from the end
+    position while it is inside the file, terminates.  Files shorter than 2^63 bytes (int64 positions). *)
+Theorem C10_decode_progress : forall (base : Z) (bytes : list N) (maxArr : Z) d al,
+  (0 <= base)%Z -> (base + Z.of_nat (length bytes) < Z.of_N two63)%Z ->
+  decode_from base bytes maxArr = DOk d al -> (base + 16 <= d_end d)%Z.
+Proof. exact decode_from_progress. Qed.
+Print Assumptions C10_decode_progress.
+
 (** non-vacuity: the three outcomes exist, and a file declaring a 2^40-element array / a 2^63 string length /
     alignment 0 is an error with a small meter *)
 Definition tiny_ok : list N := [71;71;85;70; 3;0;0;0; 0;0;0;0;0;0;0;0; 0;0;0;0;0;0;0;0].
